@@ -1411,10 +1411,10 @@ func c38Run(rc *RunCtx, conditional bool) (*Violation, error) {
 		}
 	}
 	cfg := DriverCfg{Buckets: buckets, Keys: keys, Classes: classes,
-		WBucket: 2, WVersioning: 2, WPut: 10, WGet: 4, WDelete: 4, WDeleteVersion: 3, WMultiDelete: 2, WCopy: 5, WMultipart: 8, WTagging: 3, WTransition: 2, WList: 4,
+		WBucket: 2, WVersioning: 2, WPut: 10, WGet: 4, WDelete: 4, WDeleteVersion: 3, WMultiDelete: 2, WCopy: 5, WMultipart: 8, WTagging: 3, WTransition: 2, WList: 4, WRange: 4,
 		Metadata: true, CondWrites: conditional, Checksums: conditional,
 		BodySizes: []int{0, 1, 17, 300, 1024, 4097, 70000},
-		Oracles:   map[string]bool{OContent: true, OErrKind: true, OVersions: true, OMeta: true, OList: true}}
+		Oracles:   map[string]bool{OContent: true, OErrKind: true, OVersions: true, OMeta: true, OList: true, ORange: true}}
 	d := NewDriver(rc, lens, cfg)
 	if conditional {
 		cfg.WPut, cfg.WMultipart, cfg.WDelete, cfg.WList = 14, 12, 6, 1
@@ -1438,8 +1438,13 @@ func c38Run(rc *RunCtx, conditional bool) (*Violation, error) {
 			return v, nil
 		}
 		for _, b := range d.M.BucketNames() {
-			if v := d.checkListVersions(b, "", "", 1000); v != nil {
-				return v, nil
+			for _, page := range []int32{1000, 2, 1} { // small pages: boundaries inside one key's versions
+				if v := d.checkListVersions(b, "", "", page); v != nil {
+					return v, nil
+				}
+				if v := d.checkListObjects(b, "", "", page); v != nil {
+					return v, nil
+				}
 			}
 			if v := d.checkListUploads(b, "", "", 1000); v != nil {
 				return v, nil
